@@ -314,11 +314,13 @@ def regen_table(ctx):
     out = os.path.join(ctx.cdir, 'Gen_VersionTable.v')
     try:
         rows = vtable.build(ctx.repo)
-        missing = [r for r in rows if r['uninstantiated'] and not r['const']]
+        missing = [r for r in rows if r['uninstantiated'] and not r['const']]      # (DataTable: only the DT_MUST names are kept)
         if missing:
             raise cxx2coq.TranslationError('public non-const member templates without an instantiated body: ' +
                                            ', '.join('%s::%s' % (r['class'], r['method']) for r in missing[:6]))
-        txt = vtable.to_coq(rows)
+        lk = vtable.leaks(ctx.repo)
+        ctx.coverage['structural_write_without_bump'] = lk
+        txt = vtable.to_coq(rows, lk)
         old = open(out).read() if os.path.exists(out) else None
         if old != txt:
             open(out, 'w').write(txt)
@@ -346,18 +348,28 @@ def replay(ctx, rp):
     case = rp.get('case')
     if not case:
         print('replay has no concrete case (no-failing-input-found): broken stages were', list(rp.get('broken', {}).keys())); return 1
-    src, exe = ('harness2.cpp', 'harness2') if rp.get('harness') == 'harness2' else ('harness.cpp', 'harness')
+    src, exe = {'harness2': ('harness2.cpp', 'harness2'), 'harness3': ('harness3.cpp', 'harness3')}.get(rp.get('harness'), ('harness.cpp', 'harness'))
     h = ctx.cxx(src, exe)
     if h is None:
         print('harness does not build'); return 2
     rc, lines, err = run_harness(ctx, h, [case], 'replay')
     print('case:', case, '\nimplementation:', lines[0])
-    bad = oracle_case(case, lines[0]) if exe == 'harness' else oracle2_case(case, lines[0])
+    bad = oracle_case(case, lines[0]) if exe == 'harness' else (oracle2_case(case, lines[0]) if exe == 'harness2' else oracle3_case(case, lines[0]))
     if rp.get('model') and lines[0] != rp.get('model'):
         bad.append('differs from the model output recorded in the replay: ' + rp['model'])
     if bad:
         print(bad[0]); print('VIOLATION property=C15 replay=%s' % ctx.replay); return 1
     print('property holds on this case'); return 0
+
+
+def oracle3_case(case, out):
+    """harness3: the harness's own twins / 'rejected call changed the container' checks"""
+    if out.startswith('CRASH') or out.startswith('?') or out == '<missing>':
+        return ['harness reported %s' % out]
+    for t in out.split(' | ')[0].split():
+        if t.startswith('C!') or t.startswith('X') or t.startswith('?'):
+            return ['%s' % t]
+    return []
 
 
 def oracle2_case(case, out):
@@ -377,7 +389,7 @@ def run(ctx):
                         'ResetKey is given a key equivalent to the old one (otherwise hash/order is broken: outside the claim)']
     regen_table(ctx)
     ctx.prove()
-    jobs = [('harness.cpp', 'harness', []), ('harness2.cpp', 'harness2', [])]
+    jobs = [('harness.cpp', 'harness', []), ('harness2.cpp', 'harness2', []), ('harness3.cpp', 'harness3', [])]
     jobs = [j for j in jobs if os.path.exists(os.path.join(ctx.pdir, j[0]))]
     built = ctx.cxx_many(jobs)
     harness = built.get('harness')
@@ -432,6 +444,36 @@ def run(ctx):
             ctx.stage('oracle2', not bad2 and rc == 0, (bad2[0][1] + ' :: ' + bad2[0][0][:300]) if bad2 else err[-300:])
             for (c, o, why) in bad2[:3]:
                 ctx.violation(why, {'case': c, 'impl_output': o, 'harness': 'harness2', 'cmd': 'echo "%s" | build/C15/harness2' % c}, found_input=True)
+    # ---- third harness: histories on HashMultiMap / arrays / DataTable against the extracted models MultiMap.v, Arr.v, Table.v
+    h3 = built.get('harness3')
+    if ('harness3.cpp', 'harness3', []) in jobs:
+        if h3 is None:
+            ctx.stage('build-harness3', False, getattr(ctx, 'last_cxx_error', ''))
+        else:
+            import cases3
+            c3 = cases3.gen(ctx, scale)
+            if have_model:
+                p = os.path.join(ctx.build, 'hist3.cases'); open(p, 'w').write('\n'.join(c3) + '\n')
+                rcm, ml, em = ctx.run_lines([ctx.model_exe], p)
+                keep = [c for c, l in zip(c3, ml) if ' U ' not in (' ' + l) and not l.startswith('?')]
+                ctx.coverage['histories_other_containers'] = {'generated': len(c3), 'inside_modelled_domain': len(keep),
+                                                              'by_kind': {k: sum(1 for c in keep if c.startswith(k)) for k in ('arh', 'aih', 'sah', 'mmh', 'dth')}}
+                mism3, _ = ctx.correspond('model-vs-multimap-arrays-table', keep, [h3], [ctx.model_exe])
+                ctx.tie_obligations.append({'name': 'extracted MultiMap.v / Arr.v / Table.v == real HashMultiMap / Array / SegmentedArray / DataTable (every call outcome, both version cells, contents) on %d histories' % len(keep),
+                                            'ok': not mism3})
+                for (i, c, a, b) in mism3[:3]:
+                    ctx.violation('model and implementation disagree: impl=%s model=%s' % (a[-200:], b[-200:]),
+                                  {'case': c, 'impl': a, 'model': b, 'harness': 'harness3', 'cmd': 'echo "%s" | build/C15/harness3' % c}, found_input=True)
+            rc, l3, err = run_harness(ctx, h3, c3, 'oracle3')
+            ctx.evaluations += len(c3)
+            bad3 = [(c, o, oracle3_case(c, o)[0]) for c, o in zip(c3, l3) if oracle3_case(c, o)]
+            for c, o in zip(c3, l3):
+                tk = o.split(' | ')[0].split()
+                if 'R' in tk and any(x.startswith('A') for x in tk):
+                    ctx.nontrivial.add(c)
+            ctx.stage('oracle3', not bad3 and rc == 0, (bad3[0][2] + ' :: ' + bad3[0][0][:300]) if bad3 else err[-300:])
+            for (c, o, why) in bad3[:3]:
+                ctx.violation(why, {'case': c, 'impl_output': o, 'harness': 'harness3', 'cmd': 'echo "%s" | build/C15/harness3' % c}, found_input=True)
     for c in cases[::max(1, len(cases) // 6)][:6]:
         ctx.add_sample(c[:400])
     ctx.coverage['input_distribution'] = {k: sum(1 for c in cases if c.startswith(k)) for k in KINDS}
